@@ -385,3 +385,327 @@ def _grid_names(fl, e, at) -> set[str]:
 
     go(e, at, 3)
     return out
+
+
+# =============================================================================== C07
+
+
+def _stream_values(repo: Repo, f: Def, cfg: CFG, fl, X: int):
+    """Names carrying (containers of) task streams created inside op loop X."""
+    src_calls = [c for c in repo.calls_to(f, P2S) if cfg.in_loop(cfg.node_of(c), X)]
+    sv: set[str] = set()
+
+    def has_sv(e: ast.AST) -> bool:
+        for n in ast.walk(e):
+            if isinstance(n, ast.Name) and n.id in sv:
+                return True
+            if isinstance(n, ast.Call) and n in src_calls:
+                return True
+        return False
+
+    changed = True
+    while changed:
+        changed = False
+        for nid, sites in fl.sites.items():
+            for s in sites:
+                if s.value is not None and s.kind in ("assign", "with", "walrus") and has_sv(s.value) and s.name not in sv:
+                    sv.add(s.name)
+                    changed = True
+        for n in f.own_nodes():
+            if isinstance(n, ast.Call) and isinstance(n.func, ast.Attribute) and n.func.attr in ("append", "extend", "add") and isinstance(n.func.value, ast.Name):
+                if any(has_sv(a) for a in n.args) and n.func.value.id not in sv:
+                    sv.add(n.func.value.id)
+                    changed = True
+    return src_calls, sv
+
+
+@rule("BARRIER-1", props=["C07"], floor=4)
+def barrier(ctx: Ctx) -> None:
+    """each operation's (generation's) task stream is created, fully consumed and dropped
+    inside one iteration of the executor's loop over operations; it never escapes it"""
+    repo = ctx.repo
+    from ..effects import EXT_SPAWN
+
+    for f in executor_entries(repo, ctx.tier):
+        cfg = cfg_of(f)
+        fl = flow_of(repo, f)
+        for ln, kind in op_loops(repo, f):
+            X = ln.id
+            D = _task_end_sites(repo, f, cfg, X)
+            ks = {_consume_loop(cfg, d_, f) for d_ in D} - {None, X}
+            if len(ks) != 1:
+                ctx.ob(f, ln.stmt, False, f"[{kind}] cannot identify the loop that consumes task results inside the loop over operations", sel=f"{kind}:consume-loop")
+                continue
+            K = ks.pop()
+            kst = cfg.nodes[K].stmt
+            src_calls, sv = _stream_values(repo, f, cfg, fl, X)
+            if src_calls:
+                ok = any(isinstance(n, ast.Name) and n.id in sv for n in ast.walk(kst.iter))
+                ctx.ob(f, kst, ok, f"[{kind}] the result loop consumes the stream(s) created in this iteration", sel=f"{kind}:consumes-own-stream")
+                # all definitions of stream-carrying names that reach their uses are inside X
+                escaped = []
+                for n in f.own_nodes():
+                    if isinstance(n, ast.Name) and isinstance(n.ctx, ast.Load) and n.id in sv and cfg.has(n) and cfg.in_loop(cfg.node_of(n), X):
+                        for s in fl.rdefs(n.id, cfg.node_of(n)):
+                            if not cfg.in_loop(s.node, X):
+                                escaped.append((n, s))
+                ctx.ob(
+                    f,
+                    escaped[0][0] if escaped else ln.stmt,
+                    not escaped,
+                    f"[{kind}] stream containers are (re)created inside each iteration"
+                    + ("" if not escaped else f" — `{escaped[0][0].id}` is defined outside the loop over operations: streams of several operations/generations would be merged and run together"),
+                    sel=f"{kind}:stream-local",
+                )
+                spawned = []
+                for c, ts in repo.calls_in(f):
+                    if any(t.kind == "ext" and t.qual in EXT_SPAWN for t in ts) and any(isinstance(n, ast.Name) and n.id in sv for a in c.args for n in ast.walk(a)):
+                        spawned.append(c)
+                ctx.ob(f, spawned[0] if spawned else ln.stmt, not spawned, f"[{kind}] streams are awaited in place, never handed to create_task/gather", sel=f"{kind}:not-spawned")
+                for c in src_calls:
+                    ctx.ob(f, c, cfg.in_loop(cfg.node_of(c), X), f"[{kind}] stream created inside the loop over operations", sel=f"{kind}:created-inside", nontrivial=False)
+            else:
+                # sequential executor: iterate the pipeline's mappable directly and call the task
+                # function synchronously
+                it = kst.iter
+                ok = isinstance(it, ast.Attribute) and it.attr == "mappable"
+                ctx.ob(f, kst, ok, f"[{kind}] tasks are enumerated from the operation's own mappable", sel=f"{kind}:mappable")
+                sync = [c for c, ts in repo.calls_in(f) if cfg.in_loop(cfg.node_of(c), K) and any(t.kind == "def" and t.ref.name == "exec_stage_func" for t in ts)]
+                sub = [c for c in f.own_nodes() if isinstance(c, ast.Call) and isinstance(c.func, ast.Attribute) and c.func.attr in ("submit", "create_task")]
+                ctx.ob(f, sync[0] if sync else kst, bool(sync) and not sub, f"[{kind}] each task is run synchronously inside the loop", sel=f"{kind}:synchronous")
+            # no early exit from the consuming loop or the op loop
+            early = [n for n in cfg.nodes if n.kind == "stmt" and isinstance(n.stmt, (ast.Break, ast.Return)) and cfg.in_loop(n.id, X)]
+            ctx.ob(f, early[0].stmt if early else ln.stmt, not early, f"[{kind}] no break/return inside the loop over operations (every stream is drained)", sel=f"{kind}:no-early-exit")
+            # K is directly inside X (same iteration)
+            ctx.ob(f, kst, cfg.in_loop(K, X), f"[{kind}] results are consumed in the same iteration that created the stream", sel=f"{kind}:same-iteration", nontrivial=False)
+    # pipeline_to_stream wraps exactly the pipeline's own mappable/function/config
+    p2s = repo.get(P2S)
+    ok = False
+    for c in repo.calls_to(p2s, f"{A.RT_ASYNC}.async_map_unordered"):
+        if len(c.args) >= 2 and unparse(c.args[1]) == "pipeline.mappable":
+            fk, ck = kwarg(c, "func"), kwarg(c, "config")
+            ok = fk is not None and unparse(fk) == "pipeline.function" and ck is not None and unparse(ck) == "pipeline.config"
+    ctx.ob(p2s, None, ok, "pipeline_to_stream maps the pipeline's function over the pipeline's own mappable with its own config", sel="p2s")
+
+
+@rule("BARRIER-SRC-1", props=["C07"], floor=5)
+def barrier_src(ctx: Ctx) -> None:
+    """executors obtain operations only from visit_nodes / visit_node_generations, which
+    traverse the whole dag in topological order and filter only through skip_node"""
+    repo = ctx.repo
+    for f in executor_entries(repo, ctx.tier):
+        cfg = cfg_of(f)
+        fl = flow_of(repo, f)
+        for n in cfg.stmts((ast.For, ast.AsyncFor)):
+            it = n.stmt.iter
+            t = fl.taint(it, n.id)
+            if "dag" in t and not n.loops:
+                qs = repo.callee_quals(it, f) if isinstance(it, ast.Call) else set()
+                ok = bool(qs & {VISIT_NODES, VISIT_GENS}) and it.args and isinstance(it.args[0], ast.Name) and it.args[0].id == "dag"
+                ctx.ob(f, n.stmt, ok, "operations are taken from visit_nodes(dag) / visit_node_generations(dag)" + ("" if ok else f" — iterates `{unparse(it, 40)}` instead (no topological order / no barrier)"), sel=f"src:{unparse(n.stmt.target, 20)}")
+    for q, fn in ((VISIT_NODES, "networkx.topological_sort"), (VISIT_GENS, "networkx.topological_generations")):
+        v = repo.get(q)
+        cfg = cfg_of(v)
+        fl = flow_of(repo, v)
+        loops = [n for n in cfg.stmts(ast.For) if not n.loops]
+        ok = False
+        loop = None
+        for n in loops:
+            rs = set()
+            for c in ast.walk(n.stmt.iter):
+                if isinstance(c, ast.Call):
+                    rs |= repo.callee_quals(c, v)
+            if fn in rs:
+                # argument is the dag parameter itself
+                for c in ast.walk(n.stmt.iter):
+                    if isinstance(c, ast.Call) and fn in repo.callee_quals(c, v):
+                        ok = bool(c.args) and isinstance(c.args[0], ast.Name) and c.args[0].id == v.params[0] and all(s.kind == "param" for s in fl.rdefs(c.args[0].id, n.id))
+                loop = n
+        ctx.ob(v, loop.stmt if loop else v.node, ok, f"{v.name} iterates {fn}(<the whole dag>)", sel="order")
+        if loop is None:
+            continue
+        # yields: guarded only by skip_node / non-emptiness
+        for y in [x for x in v.own_nodes() if isinstance(x, ast.Yield)]:
+            yn = cfg.node_of(y)
+            extra = []
+            for t, pol in facts_at(cfg, yn):
+                calls_skip = any(isinstance(c, ast.Call) and SKIP_NODE in repo.callee_quals(c, v) for c in ast.walk(t))
+                if calls_skip and not pol:
+                    continue
+                if isinstance(t, ast.Compare) and "len(" in unparse(t):
+                    continue
+                extra.append(("" if pol else "not ") + unparse(t))
+            # comprehension filters inside the yielded value's definition
+            for nm in ast.walk(y.value) if y.value is not None else []:
+                if isinstance(nm, ast.Name):
+                    for s in fl.rdefs(nm.id, yn):
+                        if s.value is not None and isinstance(s.value, (ast.ListComp, ast.GeneratorExp)):
+                            for g in s.value.generators:
+                                for cond in g.ifs:
+                                    for fct, pol in conjuncts(cond, True):
+                                        if not pol and any(isinstance(c, ast.Call) and SKIP_NODE in repo.callee_quals(c, v) for c in ast.walk(fct)):
+                                            continue
+                                        extra.append(unparse(cond))
+            ctx.ob(v, y, cfg.in_loop(yn, loop.id) and not extra, f"{v.name} yields every node of the order except those skip_node rejects" + ("" if not extra else f" — extra filter {extra}"), sel="yield-all")
+    sk = repo.get(SKIP_NODE)
+    cfg = cfg_of(sk)
+    fl = flow_of(repo, sk)
+    for r in cfg.returns():
+        v = r.stmt.value
+        if is_falsy_return(r):
+            ctx.ob(sk, r.stmt, True, "skip_node: falsy return (node is executed)", sel="skip:return", nontrivial=False)
+            continue
+        facts = facts_at(cfg, r.id)
+        ok = False
+        why = unparse(v, 50)
+        if isinstance(v, ast.Constant) and v.value is True:
+            # only under `<pipeline> is None`
+            for t, pol in facts:
+                if pol and isinstance(t, ast.Compare) and isinstance(t.ops[0], ast.Is) and isinstance(t.comparators[0], ast.Constant) and t.comparators[0].value is None and isinstance(t.left, ast.Name):
+                    if any(s.value is not None and "pipeline" in subscript_keys(s.value) for s in fl.rdefs(t.left.id, r.id)):
+                        ok = True
+        elif isinstance(v, ast.Call) and isinstance(v.func, ast.Attribute) and v.func.attr == "get" and v.args and isinstance(v.args[0], ast.Constant) and v.args[0].value == "computed":
+            dv = v.args[1] if len(v.args) > 1 else ast.Constant(None)
+            ok = isinstance(dv, ast.Constant) and not dv.value
+        ctx.ob(sk, r.stmt, ok, f"skip_node returns true only for 'no pipeline' or the `computed` flag with a falsy default (returns `{why}`)", sel="skip:return", props=["C07", "C09"])
+
+
+@rule("CREATE-FIRST-1", props=["C07"], floor=3)
+def create_first(ctx: Ctx) -> None:
+    """the create-arrays operation is made a predecessor of every executable operation"""
+    repo = ctx.repo
+    f = repo.get(A.CREATE_LAZY)
+    cfg = cfg_of(f)
+    fl = flow_of(repo, f)
+    # the node added with a primitive_op keyword = the create op
+    adds = [c for c in f.own_nodes() if isinstance(c, ast.Call) and isinstance(c.func, ast.Attribute) and c.func.attr == "add_node"]
+    create = [c for c in adds if kwarg(c, "primitive_op") is not None]
+    ctx.need(len(create) == 1, "create-arrays node construction not found")
+    cnode = create[0].args[0]
+    edges = [c for c in f.own_nodes() if isinstance(c, ast.Call) and isinstance(c.func, ast.Attribute) and c.func.attr == "add_edge" and len(c.args) == 2]
+    # edge create-op -> OUT
+    outs = [c.args[1] for c in edges if ast.dump(c.args[0]) == ast.dump(cnode)]
+    ctx.ob(f, create[0], len(outs) == 1, "the create-arrays op has an edge to its output node", sel="create:out-edge")
+    if len(outs) != 1:
+        return
+    out = outs[0]
+    fan = [c for c in edges if ast.dump(c.args[0]) == ast.dump(out) and cfg.nodes[cfg.node_of(c)].loops]
+    ctx.ob(f, fan[0] if fan else f.node, len(fan) == 1, "edges from the create-arrays output node are added in a loop over the collected operations", sel="create:fan-out")
+    for c in fan:
+        nid = cfg.node_of(c)
+        loop = cfg.nodes[cfg.nodes[nid].loops[-1]]
+        it = loop.stmt.iter
+        ok = isinstance(it, ast.Name) and isinstance(c.args[1], ast.Name) and isinstance(loop.stmt.target, ast.Name) and c.args[1].id == loop.stmt.target.id
+        inner_conds = [b for _, _, b in cfg.branch_conditions(nid) if cfg.in_loop(b, loop.id)]
+        ctx.ob(f, c, ok and not inner_conds, "the barrier edge is added for every collected operation (plain loop over the collection, no filter)" + ("" if ok else f" — iterates `{unparse(it, 40)}`"), sel="create:all-nodes")
+        if not isinstance(it, ast.Name):
+            continue
+        # the collection receives every node that has a primitive op
+        apps = [a for a in f.own_nodes() if isinstance(a, ast.Call) and isinstance(a.func, ast.Attribute) and a.func.attr == "append" and isinstance(a.func.value, ast.Name) and a.func.value.id == it.id]
+        ctx.ob(f, apps[0] if apps else f.node, len(apps) >= 1, "operations are collected into the list the barrier loop iterates", sel="create:collected")
+        for a in apps:
+            an = cfg.node_of(a)
+            extra = []
+            for t, pol in facts_at(cfg, an):
+                if pol and isinstance(t, ast.Compare) and isinstance(t.left, ast.Constant) and t.left.value in ("primitive_op", "pipeline") and isinstance(t.ops[0], ast.In):
+                    continue
+                extra.append(("" if pol else "not ") + unparse(t))
+            lp = cfg.nodes[an].loops
+            over_nodes = bool(lp) and "nodes" in unparse(cfg.nodes[lp[0]].stmt.iter)
+            ctx.ob(f, a, not extra and over_nodes, "every node with a primitive_op/pipeline is collected" + ("" if not extra else f" — extra filter {extra}"), sel="create:predicate")
+
+
+@rule("NODEKEYS-1", props=["C07", "C02", "C09"], floor=4)
+def nodekeys(ctx: Ctx) -> None:
+    """whoever sets a node's primitive_op also sets its pipeline from the same operation; the
+    node keys the runtime reads are keys some builder writes"""
+    repo = ctx.repo
+    written: set[str] = set()
+    n_sites = 0
+    for f in repo.functions():
+        if not f.module.qual.startswith("cubed.core."):
+            continue
+        for c in f.own_nodes():
+            if isinstance(c, ast.Call) and isinstance(c.func, ast.Attribute) and c.func.attr == "add_node":
+                for k in c.keywords:
+                    if k.arg:
+                        written.add(k.arg)
+                po = kwarg(c, "primitive_op")
+                if po is not None:
+                    n_sites += 1
+                    pl = kwarg(c, "pipeline")
+                    ok = pl is not None and isinstance(pl, ast.Attribute) and pl.attr == "pipeline" and ast.dump(pl.value) == ast.dump(po)
+                    ctx.ob(f, c, ok, "add_node(primitive_op=X) must come with pipeline=X.pipeline", sel="keys:add_node")
+            if isinstance(c, ast.Assign) and isinstance(c.targets[0], ast.Subscript) and isinstance(c.targets[0].slice, ast.Constant) and isinstance(c.targets[0].slice.value, str):
+                key = c.targets[0].slice.value
+                written.add(key)
+                if key == "primitive_op":
+                    n_sites += 1
+                    from .runtime import _block_of
+
+                    blk = _block_of(f, c)
+                    ok = False
+                    for st in blk:
+                        if isinstance(st, ast.Assign) and isinstance(st.targets[0], ast.Subscript) and isinstance(st.targets[0].slice, ast.Constant) and st.targets[0].slice.value == "pipeline":
+                            if ast.dump(st.targets[0].value) == ast.dump(c.targets[0].value) and isinstance(st.value, ast.Attribute) and st.value.attr == "pipeline" and ast.dump(st.value.value) == ast.dump(c.value):
+                                ok = True
+                    ctx.ob(f, c, ok, "node['primitive_op'] = X must be paired with node['pipeline'] = X.pipeline in the same block (the runtime executes the pipeline, the planner admits the primitive op)", sel="keys:store")
+    ctx.need(n_sites >= 4, f"only {n_sites} primitive_op writers found")
+    read: dict[str, tuple[Def, ast.AST]] = {}
+    for q in (SKIP_NODE, VISIT_NODES, VISIT_GENS, f"{A.RT_ASYNC}.async_map_dag", f"{A.RT_LOCAL}.SingleThreadedExecutor.execute_dag", f"{A.PLAN}.already_computed"):
+        d = repo.get(q)
+        for k in subscript_keys(d.node):
+            read.setdefault(k, (d, d.node))
+    for k, (d, n) in sorted(read.items()):
+        if k in ("use_backups",):
+            continue
+        ctx.ob(d, None, k in written, f"node key '{k}' read by {d.name} is written by a plan builder", sel=f"keys:read:{k}")
+
+
+@rule("PLAN-EDGES-1", props=["C07"], floor=4)
+def plan_edges(ctx: Ctx) -> None:
+    """every array whose storage an operation reads is a graph predecessor of that operation"""
+    repo = ctx.repo
+    new = repo.get(A.PLAN_NEW)
+    cfg = cfg_of(new)
+    va = new.vararg
+    ctx.need(va, "Plan._new has no *source_arrays")
+    edges = [c for c in new.own_nodes() if isinstance(c, ast.Call) and isinstance(c.func, ast.Attribute) and c.func.attr == "add_edge" and len(c.args) == 2]
+    src_edges = []
+    for c in edges:
+        nid = cfg.node_of(c)
+        lp = cfg.nodes[nid].loops
+        if lp and isinstance(cfg.nodes[lp[-1]].stmt.iter, ast.Name) and cfg.nodes[lp[-1]].stmt.iter.id == va:
+            src_edges.append(c)
+    ctx.ob(new, src_edges[0] if src_edges else new.node, len(src_edges) == 1, "Plan._new adds an edge source → op in a plain loop over all source arrays", sel="edges:sources")
+    for c in src_edges:
+        nid = cfg.node_of(c)
+        extra = []
+        for t, pol in facts_at(cfg, nid):
+            if pol and isinstance(t, ast.Call) and isinstance(t.func, ast.Name) and t.func.id == "hasattr":
+                continue
+            extra.append(unparse(t))
+        ctx.ob(new, c, not extra, "no filter on the source edges other than `hasattr(x, 'name')`" + ("" if not extra else f" — {extra}"), sel="edges:sources-unfiltered")
+    out_edges = [c for c in edges if c not in src_edges]
+    ctx.ob(new, None, len(out_edges) >= 2, "Plan._new adds op → output edges (single and multiple outputs)", sel="edges:outputs")
+    for q in (f"{A.OPS}.blockwise", f"{A.OPS}._general_blockwise"):
+        f = repo.get(q)
+        fl = flow_of(repo, f)
+        for c in repo.calls_to(f, A.PLAN_NEW):
+            star = [a for a in c.args if isinstance(a, ast.Starred)]
+            ok = False
+            if star:
+                t_src = fl.taint(star[0].value)
+                # storage objects handed to the primitive
+                prim = [p for p in f.own_nodes() if isinstance(p, ast.Call) and any(x.kind == "def" and x.ref.module.qual == A.PBW for x in repo.resolve_call(p, f, f.module))]
+                t_prim = set()
+                for p in prim:
+                    for a in p.args:
+                        if isinstance(a, ast.Starred):
+                            t_prim |= fl.taint(a.value)
+                ok = bool(t_prim) and t_prim <= t_src | {"kwargs"}
+                # and the source list contains the whole operand sequence, not a slice of it
+                for s in fl.rdefs(star[0].value.id, cfg_of(f).node_of(c)) if isinstance(star[0].value, ast.Name) else []:
+                    if s.value is not None and any(isinstance(x, ast.Subscript) for x in ast.walk(s.value)):
+                        ok = False
+            ctx.ob(f, c, ok, "Plan._new receives every array whose storage object is passed to the primitive", sel="edges:all-operands")
